@@ -43,6 +43,22 @@ pub fn gen_segments(rng: &mut Rng, max_n: usize) -> Ivs {
 }
 
 pub fn gen_intervals(rng: &mut Rng, max_n: usize) -> Ivs {
+    if rng.chance(1, 40) {
+        // occasionally a large partition (dozens to hundreds of intervals)
+        let n = 30 + rng.usize(200);
+        let mut cuts: Vec<u32> = (0..2 * n).map(|_| if rng.chance(1, 2) { rng.below(0x30000) as u32 } else { rng.below(2000) as u32 }).collect();
+        cuts.push(0);
+        cuts.sort_unstable();
+        cuts.dedup();
+        let mut out: Ivs = Vec::new();
+        for (i, &lo) in cuts.iter().enumerate() {
+            let hi = if i + 1 < cuts.len() { cuts[i + 1] - 1 } else { MAXC };
+            if rng.chance(2, 3) {
+                out.push((lo, hi));
+            }
+        }
+        return out;
+    }
     if rng.chance(2, 5) {
         return gen_segments(rng, max_n);
     }
